@@ -7,6 +7,10 @@
 #include <reproc/reproc.h>
 #include <reproc/run.h>
 
+#ifdef __cplusplus
+extern "C" {
+#endif
+
 enum { TIER_QUICK = 0, TIER_THOROUGH = 1 };
 
 struct hx_harness {
@@ -61,5 +65,9 @@ const char *hx_errname(int r); /* "-EPIPE" etc. for logs and keys */
 const char *hx_stop_str(reproc_stop_actions a, char *buf, size_t n);
 
 extern const struct hx_harness *const hx_harnesses[];
+
+#ifdef __cplusplus
+}
+#endif
 
 #endif
